@@ -1,11 +1,12 @@
 """Scan unit `own` (C09): descriptor ownership leaves Rust's RAII (A-AFFINE: a File / OwnedFd / UnixStream / EventFd is closed
-exactly once, when dropped) only at `into_raw_fd()` / `from_raw_fd()` / forget-like constructs. The proofs of C09 cover the sites
-listed below (each with the obligation that decides it); this unit checks, on the non-test text of both crates, that
-  (1) every `.into_raw_fd()` is the direct argument of a `from_raw_fd(..)` (ownership moves from one RAII wrapper into another
-      within one expression), except the sites in ALLOW_INTO;
-  (2) the functions containing `from_raw_fd(` are exactly the registered ones;
+exactly once, when dropped) only at `into_raw_fd()` / `from_raw_fd()` / forget-like constructs. On the non-test text of both crates:
+  (1) every `.into_raw_fd()` is re-wrapped: it is the direct argument of a `from_raw_fd(..)`, or it is bound to a name that is passed
+      to `from_raw_fd` exactly once later in the same function (violation otherwise: a raw descriptor that nobody owns is a leak),
+      except the sites in ALLOW_INTO;
+  (2) every other `from_raw_fd(x)` (x not such a re-wrap) is a registered site with the obligation that decides it (a new one makes
+      C09 undecided: the case analysis does not cover it);
   (3) there is no mem::forget / ManuallyDrop / Box::leak / into_raw( in non-test code.
-A new or removed site means the case analysis behind C09 no longer matches the code. Syntactic obligations (engine `scan`)."""
+Syntactic obligations (engine `scan`), not solver-discharged."""
 import re, os
 from vx import Unit, Source, code_mask
 
@@ -14,17 +15,15 @@ FILES = ["vhost/src/vhost_user/connection.rs", "vhost/src/vhost_user/backend_req
          "vhost/src/vhost_user/backend.rs", "vhost/src/vhost_user/message.rs", "vhost/src/vhost_user/mod.rs",
          "vhost-user-backend/src/handler.rs", "vhost-user-backend/src/vring.rs", "vhost-user-backend/src/event_loop.rs",
          "vhost-user-backend/src/lib.rs", "vhost-user-backend/src/backend.rs", "vhost-user-backend/src/bitmap.rs"]
-# (file, function) -> what decides the site
-FROM_SITES = {
-    ("vhost/src/vhost_user/connection.rs", "from_raw_fd"): "Listener::from_raw_fd: constructor taking ownership of the caller's descriptor (its safety contract)",
-    ("vhost/src/vhost_user/connection.rs", "recv_into_iovec"): "verus chunk recv_into_iovec [C09:wrap-each-once] + kani c09_recv_into_iovec_wraps_each_fd_once_bounded",
-    ("vhost/src/vhost_user/backend_req_handler.rs", "set_backend_req_fd"): "kani c09_set_backend_req_fd_ledger (File -> UnixStream, same descriptor, closed once)",
-    ("vhost/src/vhost_user/backend_req_handler.rs", "set_gpu_socket"): "kani c09_set_gpu_socket_ledger",
-    ("vhost-user-backend/src/vring.rs", "set_kick"): "kani c09_vring_fd_ownership (File -> EventConsumer)",
-    ("vhost-user-backend/src/vring.rs", "set_call"): "kani c09_vring_fd_ownership (File -> EventNotifier)",
-    ("vhost-user-backend/src/vring.rs", "set_err"): "kani c09_vring_fd_ownership (File -> EventConsumer)",
-    ("vhost-user-backend/src/handler.rs", "postcopy_advice"): "cfg(feature = postcopy): outside the verified feature set (A-FEATURES)",
+# `from_raw_fd(ARG)` sites whose ARG is NOT an `into_raw_fd()` re-wrap: (file, function, ARG) -> what decides the site
+RAW_WRAPS = {
+    ("vhost/src/vhost_user/connection.rs", "from_raw_fd", "fd"): "Listener::from_raw_fd: constructor taking ownership of the caller's descriptor (its safety contract)",
+    ("vhost/src/vhost_user/connection.rs", "recv_into_iovec", "*fd"): "verus chunk recv_into_iovec [C09:wrap-each-once] + kani c09_recv_into_iovec_wraps_each_fd_once_bounded",
+    ("vhost-user-backend/src/handler.rs", "postcopy_advice", "uffd_dup"): "cfg(feature = postcopy): outside the verified feature set (A-FEATURES)",
 }
+# RAII -> RAII re-wraps `T::from_raw_fd(x.into_raw_fd())` keep the descriptor owned at every point and need no registration; the ones
+# on received descriptors are additionally ledger-checked by Kani (c09_set_backend_req_fd_ledger, c09_set_gpu_socket_ledger,
+# c09_vring_fd_ownership)
 ALLOW_INTO = {
     ("vhost-user-backend/src/event_loop.rs", "new"): "the worker's own exit-event consumer (not a received descriptor): handed to epoll for the worker's lifetime",
 }
@@ -42,10 +41,43 @@ def enclosing_fn(text, pos):
     return best
 
 
+def fn_extent(text, pos):
+    """(start, end) of the body of the function enclosing pos (brace matching on comment-free text)"""
+    best = None
+    for m in re.finditer(r'\bfn\s+\w+', text[:pos]):
+        best = m
+    if not best:
+        return 0, len(text)
+    ob = text.find('{', best.end())
+    depth, k = 0, ob
+    while k < len(text):
+        if text[k] == '{':
+            depth += 1
+        elif text[k] == '}':
+            depth -= 1
+            if depth == 0:
+                break
+        k += 1
+    return ob, k
+
+
+def call_arg(text, open_paren):
+    depth, k = 0, open_paren
+    while k < len(text):
+        if text[k] == '(':
+            depth += 1
+        elif text[k] == ')':
+            depth -= 1
+            if depth == 0:
+                return re.sub(r'\s+', '', text[open_paren + 1:k])
+        k += 1
+    return ""
+
+
 def build():
     u = Unit("own")
     u.no_verus = True
-    found_from, bad_into, forget = set(), [], []
+    bad_into, unreg_wraps, forget = [], [], []
     for f in FILES:
         try:
             src = Source(f)
@@ -53,26 +85,40 @@ def build():
             continue
         text = u.rw.strip_comments(non_test(src.src))
         u.spans.append((f, "<non-test text>", __import__("vx").sha(text)))
+        rewrapped_ids = set()
+        for m in re.finditer(r'\.into_raw_fd\s*\(\s*\)', text):
+            fn = enclosing_fn(text, m.start())
+            before = text[max(0, m.start() - 120):m.start()]
+            if re.search(r'from_raw_fd\s*\(\s*[\w\.]+$', before):
+                continue                                     # direct re-wrap
+            lm = re.search(r'let\s+(?:mut\s+)?(\w+)\s*(?::[^=]+)?=\s*[^;]*$', before)
+            s, e = fn_extent(text, m.start())
+            if lm and text[m.end():m.end() + 2].lstrip().startswith(';'):
+                ident = lm.group(1)
+                uses = re.findall(r'from_raw_fd\s*\(\s*%s\s*\)' % re.escape(ident), text[m.end():e])
+                if len(uses) == 1:
+                    rewrapped_ids.add((fn, ident))
+                    continue                                 # bound to a name and re-wrapped exactly once later in the same function
+            if (f, fn) not in ALLOW_INTO:
+                bad_into.append("%s::%s" % (f, fn))
         for m in re.finditer(r'\bfrom_raw_fd\s*\(', text):
             if re.search(r'\bfn\s+$', text[:m.start()]):
-                continue   # the definition of a from_raw_fd method itself
-            found_from.add((f, enclosing_fn(text, m.start())))
-        for m in re.finditer(r'\.into_raw_fd\s*\(\s*\)', text):
-            before = text[max(0, m.start() - 80):m.start()]
-            paired = re.search(r'from_raw_fd\s*\(\s*[\w\.]+$', before) is not None
+                continue                                     # the definition of a from_raw_fd method itself
             fn = enclosing_fn(text, m.start())
-            if not paired and (f, fn) not in ALLOW_INTO:
-                bad_into.append("%s::%s" % (f, fn))
+            arg = call_arg(text, m.end() - 1)
+            if arg.endswith(".into_raw_fd()") or (fn, arg) in rewrapped_ids:
+                continue
+            if (f, fn, arg) not in RAW_WRAPS:
+                unreg_wraps.append("%s::%s(%s)" % (f, fn, arg))
         for m in re.finditer(r'\bmem::forget\s*\(|\bManuallyDrop\b|\bBox::leak\s*\(|\.into_raw\s*\(', text):
             forget.append("%s::%s" % (f, enclosing_fn(text, m.start())))
     u.functions = []
     u.scan(["C09"], "every_into_raw_fd_is_rewrapped", not bad_into,
-           "every `.into_raw_fd()` in non-test code is the direct argument of a `from_raw_fd(..)` (the descriptor never exists unowned); offending: %s" % (sorted(set(bad_into)) or "none"))
-    missing = sorted("%s::%s" % k for k in set(FROM_SITES) - found_from if "postcopy" not in FROM_SITES[k])
-    extra = sorted("%s::%s" % k for k in found_from - set(FROM_SITES))
-    u.scan(["C09"], "from_raw_fd_sites_are_the_registered_ones", not extra and not missing,
-           "the functions that wrap a raw descriptor (`from_raw_fd(`) are exactly the ones whose ownership transfer is proved; unregistered: %s; missing: %s" % (extra or "none", missing or "none"))
+           "every `.into_raw_fd()` in non-test code is re-wrapped by a `from_raw_fd(..)` (directly, or bound to a name that is re-wrapped exactly once in the same function): the descriptor never ends up unowned; offending: %s" % (sorted(set(bad_into)) or "none"))
+    u.scan(["C09"], "raw_descriptor_wraps_are_the_registered_ones", not unreg_wraps,
+           "every `from_raw_fd(x)` whose argument is not such a re-wrap is one of the registered sites whose ownership transfer is proved; unregistered: %s" % (sorted(set(unreg_wraps)) or "none"),
+           on_fail="undecided")
     u.scan(["C09"], "no_forget_like_constructs", not forget,
            "no mem::forget / ManuallyDrop / Box::leak / into_raw( in non-test code (nothing escapes drop); found in: %s" % (sorted(set(forget)) or "none"))
-    u.site_table = dict(("%s::%s" % k, v) for k, v in list(FROM_SITES.items()) + list(ALLOW_INTO.items()))
+    u.site_table = dict(("%s::%s(%s)" % k, v) for k, v in RAW_WRAPS.items())
     return u
